@@ -115,6 +115,15 @@ func init() {
 				for b := 0; b < ncb; b++ {
 					cs = append(cs, fw.Case{ID: fmt.Sprintf("commit/rand/%d", b), Kind: "commitbatch", P: map[string]any{"face": "commit", "b": b}})
 				}
+				// many triples on ONE chip in ONE circuit (state kept by a chip must not leak between calls)
+				nseq := 4
+				if !ctx.Quick {
+					nseq = 60
+				}
+				for b := 0; b < nseq; b++ {
+					f := []string{"native", "plain"}[b%2]
+					cs = append(cs, fw.Case{ID: fmt.Sprintf("%s/seq/%d", f, b), Kind: "seqbatch", P: map[string]any{"face": f, "b": b}})
+				}
 				ns := 12
 				if !ctx.Quick {
 					ns = 200
@@ -166,6 +175,42 @@ func init() {
 					if v, bad := run(faceByName(c.Str("face")), ts); bad {
 						return v
 					}
+				case "seqbatch":
+					r := ctx.Rand("seq/" + strconv.Itoa(c.Int("b")))
+					var ts []c07Triple
+					for k := 0; k < 48; k++ {
+						q := randBig(r, pow2(uint(1+r.Intn(144))))
+						t := c07Triple{A: randGL(r), B: randGL(r), C: randGL(r), X: c07ReduceInput(q, randGL(r))}
+						if k%6 == 5 {
+							t = ts[k-3] // a repeated operand tuple in the middle of different ones
+						}
+						ts = append(ts, t)
+					}
+					outsAll := make([][]*big.Int, len(ts))
+					res := harnRunOpt(engine.Options{Face: faceByName(c.Str("face"))}, func(api frontend.API) error {
+						for k, t := range ts {
+							ov := c07Gadget(api, []frontend.Variable{bu(t.A), bu(t.B), bu(t.C), t.X})
+							outsAll[k] = make([]*big.Int, len(ov))
+							for j := range ov {
+								outsAll[k][j] = engine.Value(ov[j])
+							}
+						}
+						return nil
+					})
+					if io, bad := inconclusiveIf(res); bad {
+						return io
+					}
+					o.Events += events(res)
+					for k, t := range ts {
+						if outsAll[k] == nil {
+							return fw.Violate("gadget_failed:sequence", fmt.Sprintf("sequence of %d operand tuples on one chip stopped: %s %s", len(ts), resStr(res), res.Msg))
+						}
+						if v, bad := c07Judge(t, outsAll[k], res, "sequence/"+c.Str("face")); bad {
+							return v
+						}
+						o.Inc("triples_checked")
+					}
+					o.Sample = map[string]any{"face": c.Str("face"), "triples_on_one_chip": len(ts)}
 				case "commitbatch":
 					// one engine run under the commit face: many triples + padding so the
 					// chip's alignment condition (optimal width 16) is met
